@@ -1258,78 +1258,93 @@ func (h *hist) govTx(t *rapid.T) (txSpec, bool) {
 	dec := func(label string, choices ...string) sdkmath.LegacyDec {
 		return sdkmath.LegacyMustNewDecFromStr(pick(t, label, choices))
 	}
-	var msg sdk.Msg
-	switch rapid.IntRange(0, 4).Draw(t, "govmod") {
-	case 4:
-		// htlc: the cross-chain asset is delisted, listed again, paused, or its limits are changed
-		p := k.HTLC.GetParams(ctx)
-		base := htlctypes.AssetParam{
-			Denom: HtltDenom, SupplyLimit: htlctypes.SupplyLimit{Limit: sdkmath.NewInt(1_000_000_000), TimeLimited: false, TimePeriod: time.Hour, TimeBasedLimit: sdkmath.ZeroInt()},
-			Active: true, DeputyAddress: h.addr(1), FixedFee: sdkmath.NewInt(1), MinSwapAmount: sdkmath.NewInt(2), MaxSwapAmount: sdkmath.NewInt(1_000_000),
-			MinBlockLock: 50, MaxBlockLock: 100,
-		}
-		switch pick(t, "htlcparams", []string{"delist", "list", "pause", "lowlimit", "timelimit"}) {
-		case "delist":
-			p.AssetParams = nil
-		case "list":
-			p.AssetParams = []htlctypes.AssetParam{base}
-		case "pause":
-			base.Active = false
-			p.AssetParams = []htlctypes.AssetParam{base}
-		case "lowlimit":
-			base.SupplyLimit.Limit = sdkmath.NewInt(int64(pick(t, "limit", []int{1, 100, 5000})))
-			p.AssetParams = []htlctypes.AssetParam{base}
+	paramsMsg := func() sdk.Msg {
+		var msg sdk.Msg
+		switch rapid.IntRange(0, 4).Draw(t, "govmod") {
+		case 4:
+			// htlc: the cross-chain asset is delisted, listed again, paused, or its limits are changed
+			p := k.HTLC.GetParams(ctx)
+			base := htlctypes.AssetParam{
+				Denom: HtltDenom, SupplyLimit: htlctypes.SupplyLimit{Limit: sdkmath.NewInt(1_000_000_000), TimeLimited: false, TimePeriod: time.Hour, TimeBasedLimit: sdkmath.ZeroInt()},
+				Active: true, DeputyAddress: h.addr(1), FixedFee: sdkmath.NewInt(1), MinSwapAmount: sdkmath.NewInt(2), MaxSwapAmount: sdkmath.NewInt(1_000_000),
+				MinBlockLock: 50, MaxBlockLock: 100,
+			}
+			switch pick(t, "htlcparams", []string{"delist", "list", "pause", "lowlimit", "timelimit"}) {
+			case "delist":
+				p.AssetParams = nil
+			case "list":
+				p.AssetParams = []htlctypes.AssetParam{base}
+			case "pause":
+				base.Active = false
+				p.AssetParams = []htlctypes.AssetParam{base}
+			case "lowlimit":
+				base.SupplyLimit.Limit = sdkmath.NewInt(int64(pick(t, "limit", []int{1, 100, 5000})))
+				p.AssetParams = []htlctypes.AssetParam{base}
+			default:
+				base.SupplyLimit.TimeLimited, base.SupplyLimit.TimePeriod, base.SupplyLimit.TimeBasedLimit = true, time.Minute, sdkmath.NewInt(3000)
+				p.AssetParams = []htlctypes.AssetParam{base}
+			}
+			msg = &htlctypes.MsgUpdateParams{Authority: gov, Params: p}
+		case 0:
+			p := k.Token.GetParams(ctx)
+			p.IssueTokenBaseFee = sdk.NewInt64Coin("stake", int64(pick(t, "basefee", []int{60000, 120000, 1000, 7})))
+			p.TokenTaxRate = dec("tax", "0.4", "0.1", "0.999", "0")
+			p.MintTokenFeeRatio = dec("mintratio", "0.1", "0.5", "1", "0")
+			// the two fields whose zero value is a meaningful setting (proto3 leaves zero values out of the encoding)
+			p.EnableErc20 = rapid.Bool().Draw(t, "erc20on")
+			p.Beacon = pick(t, "beacon", []string{"", "", "0x00000000000000000000000000000000000000b1"})
+			msg = &tokenv1.MsgUpdateParams{Authority: gov, Params: p}
+		case 1:
+			p := k.Coinswap.GetParams(ctx)
+			p.Fee = dec("fee", "0.003", "0.01", "0.5", "0.000000000000000001")
+			p.TaxRate = dec("cstax", "0.4", "0.01", "0.99")
+			p.UnilateralLiquidityFee = dec("unifee", "0.002", "0", "0.3")
+			p.PoolCreationFee = sdk.NewInt64Coin("stake", int64(pick(t, "poolfee", []int{5000, 1, 100000})))
+			msg = &coinswaptypes.MsgUpdateParams{Authority: gov, Params: p}
+		case 2:
+			p := k.Farm.GetParams(ctx)
+			p.PoolCreationFee = sdk.NewInt64Coin("stake", int64(pick(t, "farmfee", []int{5000, 1, 70000})))
+			p.TaxRate = dec("farmtax", "0.4", "0.05", "0.9", "0.3333", "0", "1")
+			// the category limit only guards new pools and appended rewards: existing pools keep their rules
+			p.MaxRewardCategories = uint32(pick(t, "maxcat", []int{2, 1, 1, 3}))
+			if rapid.IntRange(0, 3).Draw(t, "oddfee") == 0 {
+				p.PoolCreationFee = sdk.NewInt64Coin("stake", int64(pick(t, "farmfee2", []int{5001, 3, 7777})))
+			}
+			msg = &farmtypes.MsgUpdateParams{Authority: gov, Params: p}
 		default:
-			base.SupplyLimit.TimeLimited, base.SupplyLimit.TimePeriod, base.SupplyLimit.TimeBasedLimit = true, time.Minute, sdkmath.NewInt(3000)
-			p.AssetParams = []htlctypes.AssetParam{base}
+			p := k.Service.GetParams(ctx)
+			p.ServiceFeeTax = dec("svctax", "0.05", "0", "0.5")
+			p.SlashFraction = dec("slash", "0.001", "0", "0.5", "1")
+			p.MaxRequestTimeout = int64(pick(t, "maxto", []int{100, 10, 1000}))
+			p.MinDepositMultiple = int64(pick(t, "depmult", []int{1000, 1000, 1, 5000}))
+			p.MinDeposit = coins("stake", int64(pick(t, "mindep", []int{5000, 5000, 1, 20000})))
+			p.RestrictedServiceFeeDenom = rapid.IntRange(0, 5).Draw(t, "restrictdenom") == 0
+			p.TxSizeLimit = uint64(pick(t, "txsize", []int{4000, 4000, 1, 100000}))
+			p.ArbitrationTimeLimit = time.Duration(pick(t, "arbitration", []int{432000, 1, 3600})) * time.Second
+			p.ComplaintRetrospect = time.Duration(pick(t, "complaint", []int{1296000, 1, 60})) * time.Second
+			if rapid.IntRange(0, 5).Draw(t, "basedenom") == 0 {
+				// the coin in which deposits and fee caps are expressed changes (and may change back later): objects created
+				// under the old one stay as they are
+				p.BaseDenom = pick(t, "newbase", []string{"usdt", "stake", "eth"})
+				p.MinDeposit = sdk.NewCoins(sdk.NewInt64Coin(p.BaseDenom, 5000))
+			}
+			msg = &servicetypes.MsgUpdateParams{Authority: gov, Params: p}
 		}
-		msg = &htlctypes.MsgUpdateParams{Authority: gov, Params: p}
-	case 0:
-		p := k.Token.GetParams(ctx)
-		p.IssueTokenBaseFee = sdk.NewInt64Coin("stake", int64(pick(t, "basefee", []int{60000, 120000, 1000, 7})))
-		p.TokenTaxRate = dec("tax", "0.4", "0.1", "0.999", "0")
-		p.MintTokenFeeRatio = dec("mintratio", "0.1", "0.5", "1", "0")
-		// the two fields whose zero value is a meaningful setting (proto3 leaves zero values out of the encoding)
-		p.EnableErc20 = rapid.IntRange(0, 2).Draw(t, "erc20on") != 0
-		p.Beacon = pick(t, "beacon", []string{"", "", "0x00000000000000000000000000000000000000b1"})
-		msg = &tokenv1.MsgUpdateParams{Authority: gov, Params: p}
-	case 1:
-		p := k.Coinswap.GetParams(ctx)
-		p.Fee = dec("fee", "0.003", "0.01", "0.5", "0.000000000000000001")
-		p.TaxRate = dec("cstax", "0.4", "0.01", "0.99")
-		p.UnilateralLiquidityFee = dec("unifee", "0.002", "0", "0.3")
-		p.PoolCreationFee = sdk.NewInt64Coin("stake", int64(pick(t, "poolfee", []int{5000, 1, 100000})))
-		msg = &coinswaptypes.MsgUpdateParams{Authority: gov, Params: p}
-	case 2:
-		p := k.Farm.GetParams(ctx)
-		p.PoolCreationFee = sdk.NewInt64Coin("stake", int64(pick(t, "farmfee", []int{5000, 1, 70000})))
-		p.TaxRate = dec("farmtax", "0.4", "0.05", "0.9", "0.3333", "0", "1")
-		// the category limit only guards new pools and appended rewards: existing pools keep their rules
-		p.MaxRewardCategories = uint32(pick(t, "maxcat", []int{2, 1, 1, 3}))
-		if rapid.IntRange(0, 3).Draw(t, "oddfee") == 0 {
-			p.PoolCreationFee = sdk.NewInt64Coin("stake", int64(pick(t, "farmfee2", []int{5001, 3, 7777})))
-		}
-		msg = &farmtypes.MsgUpdateParams{Authority: gov, Params: p}
-	default:
-		p := k.Service.GetParams(ctx)
-		p.ServiceFeeTax = dec("svctax", "0.05", "0", "0.5")
-		p.SlashFraction = dec("slash", "0.001", "0", "0.5", "1")
-		p.MaxRequestTimeout = int64(pick(t, "maxto", []int{100, 10, 1000}))
-		p.MinDepositMultiple = int64(pick(t, "depmult", []int{1000, 1000, 1, 5000}))
-		p.MinDeposit = coins("stake", int64(pick(t, "mindep", []int{5000, 5000, 1, 20000})))
-		p.RestrictedServiceFeeDenom = rapid.IntRange(0, 5).Draw(t, "restrictdenom") == 0
-		p.TxSizeLimit = uint64(pick(t, "txsize", []int{4000, 4000, 1, 100000}))
-		p.ArbitrationTimeLimit = time.Duration(pick(t, "arbitration", []int{432000, 1, 3600})) * time.Second
-		p.ComplaintRetrospect = time.Duration(pick(t, "complaint", []int{1296000, 1, 60})) * time.Second
-		if rapid.IntRange(0, 5).Draw(t, "basedenom") == 0 {
-			// the coin in which deposits and fee caps are expressed changes (and may change back later): objects created
-			// under the old one stay as they are
-			p.BaseDenom = pick(t, "newbase", []string{"usdt", "stake", "eth"})
-			p.MinDeposit = sdk.NewCoins(sdk.NewInt64Coin(p.BaseDenom, 5000))
-		}
-		msg = &servicetypes.MsgUpdateParams{Authority: gov, Params: p}
+		return msg
 	}
-	sp, err := govv1.NewMsgSubmitProposal([]sdk.Msg{msg}, sdk.NewCoins(sdk.NewInt64Coin("stake", 5)), h.addr(0), "", "params", "change parameters", false)
+	// one proposal may change the parameters of several modules at once
+	msgs := []sdk.Msg{paramsMsg()}
+	for i := 0; i < 2 && rapid.IntRange(0, 2).Draw(t, "moreparams") == 0; i++ {
+		m := paramsMsg()
+		dup := false
+		for _, x := range msgs {
+			dup = dup || sdk.MsgTypeURL(x) == sdk.MsgTypeURL(m)
+		}
+		if !dup {
+			msgs = append(msgs, m)
+		}
+	}
+	sp, err := govv1.NewMsgSubmitProposal(msgs, sdk.NewCoins(sdk.NewInt64Coin("stake", 5)), h.addr(0), "", "params", "change parameters", false)
 	if err != nil {
 		return txSpec{}, false
 	}
